@@ -147,4 +147,13 @@ theorem source_gates :
     Pams.Source.opsOf "SequentialRunner._collect_orders_from_normal_agents" = [">=", ">", ">", "!="] ∧
     Pams.Source.opsOf "SequentialRunner._handle_orders" = ["<", ">=", ">", ">", "!="] := by decide
 
+/-- (T) the matching round of the request loop in the current sources: exactly one `_execution`
+call, after the market call and the owner's notification, on the paths with execution on (orders
+*and* cancels, normal *and* high-frequency branch), none on the paths with execution off -/
+theorem source_round_gate :
+    ∀ x ∈ PamsGen.requestPaths,
+      x.2.2.2.count "_execution" = (if x.2.2.1 then 1 else 0) ∧
+      (x.2.2.1 = true →
+        x.2.2.2.idxOf (if x.2.1 then "_cancel_order" else "_add_order") < x.2.2.2.idxOf "_execution") := by decide
+
 end Pams.C09
